@@ -132,6 +132,15 @@ def check_roundtrip(ctx, recipes, order, indent, pieces):
     except Exception as e:
         ctx.violation("extraction-raises", "HTMLTextDocument raised %r" % e, wit)
         return False
+    # the returned dependencies are the caller's: changing them does not change what the document renders next
+    for d_ in out["dependencies"]:
+        d_.name = d_.name + "-changed-by-caller"
+        d_.script.append({"src": "caller.js"})
+    out2 = doc.render()
+    if out2["html"] != out["html"] or [fields(x) for x in out2["dependencies"]] == [fields(x) for x in out["dependencies"]] and out["dependencies"]:
+        ctx.violation("returned-dependencies-aliased", "changing the dependencies returned by render() changed the document's next rendering", wit)
+        return False
+    out = out2
     want_text = "".join(pieces)
     if out["html"] != want_text:
         ctx.violation("surrounding-text-damaged", "text after extraction differs from the surrounding pieces", dict(wit, got=out["html"][:600], want=want_text[:600]))
